@@ -178,7 +178,7 @@ func C13(ctx *core.Ctx) int {
 	}
 	p1 := dsl.P1()
 	for i, p := range p1 {
-		if i%9 == 0 || ctx.Thorough() || strings.Contains(p.Name, "match") {
+		if i%9 == 0 || ctx.Thorough() || (strings.Contains(p.Name, "match") && !strings.Contains(p.Name, "lenof") && i%2 == 0) {
 			progs = append(progs, p)
 		}
 	}
@@ -260,7 +260,7 @@ func C13(ctx *core.Ctx) int {
 				}
 				seen[l][core.Hash(t)] = true
 				if t != first[l] {
-					ctx.Report("observed with the un-instrumented binary|two runs of the same command produce different "+l+" trees",
+					ctx.Report("observed with the un-instrumented binary|two runs of the same command produce different "+l+" trees|"+progName(p.Name),
 						fmt.Sprintf("program %s: run %d differs from run 0\nfirst difference: %s", p.Name, k, firstDiffLine(first[l], t)),
 						map[string]any{"name": p.Name, "text": text, "lang": l})
 				}
@@ -308,6 +308,13 @@ func C13(ctx *core.Ctx) int {
 	ctx.Assumes = append(ctx.Assumes, "nondeterminism inside third-party packages (ANTLR runtime, strcase, text/template) is not enumerated; the free runs of the real binary are the only look at it",
 		"the clock has two answers: now and now + 1 year")
 	return ctx.Finish("model_checking", cov)
+}
+
+func progName(n string) string {
+	if i := strings.Index(n, "{"); i > 0 {
+		return n[:i]
+	}
+	return n
 }
 
 func subset(a, b []string) bool {
@@ -426,7 +433,12 @@ func c13Explore(ctx *core.Ctx, name, text, lang string, st *c13Stats, fullPerm, 
 			}
 		}
 		if minimal {
-			ctx.Report(fmt.Sprintf("%s output depends on the choice at %s", lang, key), f.detail, f.replay)
+			// the clock sites affect every program alike; map-order sites are told apart by the program that exposes them
+			suffix := "|" + progName(name)
+			if !strings.Contains(key, "range ") {
+				suffix = ""
+			}
+			ctx.Report(fmt.Sprintf("%s output depends on the choice at %s%s", lang, key, suffix), f.detail, f.replay)
 		}
 	}
 	// reduced alternatives: detect from the recorded points of the base run
